@@ -354,6 +354,8 @@ func runC15(e *Engine, r *Report) {
 	}
 	ruleChunkPayloadFresh(e, r)
 	ruleChunkDescribesSnapshot(e, r)
+	// chunks travel in frames whose payload checksum gates delivery (decided by C13's rule set)
+	borrow(e, r, "C13", "VAL-frame")
 }
 
 // methodNamed: the call is a (static or interface) call of a method/function named name.
